@@ -148,7 +148,7 @@ def run(tier):
         if m == "rs" and variant not in (5, 6):   # "identical" must not mean "identically wrong": the coloured run is also judged by Obs_Stream
             # (a CR at the end of a line is dropped by delta - permitted - so it is not part of the text expected)
             ev, rows = stream.run_event(len(sevents), h, [t[:-1] if t.endswith("\r") else t for t in texts], rc_, {"keep": False, "tabs": 8, "colorOnly": False,
-                                                                      "buf": 32, "hhFile": True, "rel": False, "wd": False}, intern=intern, skin={})
+                                                                      "buf": 32, "hhFile": True, "rel": False, "wd": False, "commitRaw": False}, intern=intern, skin={})
             # a line that is passed through carries the bytes (colours included) of the coloured input
             for ln, t in zip(ev["lines"], ctexts):
                 ln["bid"] = intern(stream.normalise_line(t.encode("utf-8", "surrogateescape")))
